@@ -116,6 +116,8 @@ type dbCase struct {
 	Bulk       int       `json:"bulk,omitempty"`        // additional JSON records NS/bulk<i> in every database of the case
 	BulkDBs    []string  `json:"bulk_dbs,omitempty"`
 	InSend     []inSend  `json:"in_send,omitempty"`
+	DBs        []string  `json:"dbs,omitempty"`       // the databases of the case
+	Websocket  bool      `json:"websocket,omitempty"` // the messages travel over the websocket endpoint of the api module
 }
 
 var caseCounter atomic.Int64
